@@ -227,6 +227,20 @@ theorem upd_succ (p : Prog) (f : Nat) (s : State) (id : Nat) :
   rw [upd]
   rfl
 
+/-- the check phase of `update_if_necessary` of a memo -/
+def updPre (p : Prog) (f : Nat) (s : State) (id : Nat) : State × Bool :=
+  match (s.get id).st with
+  | .clean => (s, false)
+  | .dirty => (s, true)
+  | .check => anySrc (upd p f) true id (s.get id).sources s
+
+theorem upd_succ' (p : Prog) (f : Nat) (s : State) (id : Nat) :
+    upd p (f + 1) s id =
+      if (s.get id).kind != .memo then (s, false) else
+      if (updPre p f s id).2 then updRun p f (updPre p f s id).1 id
+      else ((updPre p f s id).1.upd id fun n => { n with st := .clean }, false) := by
+  rw [upd_succ]; rfl
+
 theorem updRun_sk (p : Prog) (f : Nat) (hf : ∀ s x, SK0 s (upd p f s x).1) (s0 : State) (id : Nat)
     (hk : (s0.get id).kind ≠ .eff) : SK0 s0 (updRun p f s0 id).1 := by
   unfold updRun
